@@ -72,6 +72,30 @@ func c04History(e *core.Env, r *core.Rand, idx int64) {
 	}
 	d := gen.Document(r, gen.Opts{MaxRecs: r.PickInt(6, 6, 6, 14), MaxEntries: 4, Near: &today, NearSpread: r.PickInt(1, 2, 5), Sorted: r.Chance(3, 4), NoDupDates: r.Chance(2, 3), Hostile: r.Chance(2, 3), OpenRanges: 1,
 		Tags: 1, Unicode: r.Chance(1, 4), LookAlikes: r.Chance(1, 3), TrailingBlank: false, MaxHours: 12})
+	pauseFirst := false
+	if core.Hash64("c04-pause-first", fmt.Sprint(e.Seed, idx))%12 == 0 {
+		// today's record holds an open range and an earlier pause whose summary is separated by a tab or several blanks;
+		// the history begins with `pause --extend`
+		hasToday := false
+		for i := range d.Doc.Recs {
+			if d.Doc.Recs[i].Date == today {
+				hasToday = true
+			}
+		}
+		if !hasToday {
+			extra := ref.FormatDate(today, true) + "\n    0:01 - ? work #proj\n    -5m lunch break #food\n        and a walk\n"
+			if x, ok := withAppended(d, extra); ok {
+				d, pauseFirst = x, true
+				if r.Chance(2, 3) { // same records, the separator spelt as a tab (klog reads it the same way)
+					d = &gen.Out{Text: strings.Replace(d.Text, "    -5m lunch break #food", "    -5m\tlunch break #food", 1), Doc: d.Doc, Feat: d.Feat}
+				}
+			}
+		}
+	}
+	if core.Hash64("c04-tab", fmt.Sprint(e.Seed, idx))%5 == 0 && !pauseFirst {
+		// a tab instead of the blank between an entry's value and its summary (same records, another spelling)
+		d = &gen.Out{Text: c03Tabify(r, d), Doc: d.Doc, Feat: d.Feat}
+	}
 	if k := core.Hash64("c04-size", fmt.Sprint(e.Seed, idx)) % 150; k < 2 {
 		// the history plays in front of a big file: more than a thousand later records, or a line beyond 64 KiB
 		extra := manyRecordsText(r, r.PickInt(1001, 1100))
@@ -123,6 +147,10 @@ func c04History(e *core.Env, r *core.Rand, idx int64) {
 			base.Today = env.Today
 		}
 		cmd := genLikelyCommand(r, model, env, !viaBin)
+		if s == 0 && pauseFirst && !viaBin {
+			cmd = MCmd{Kind: "pause", Extend: true, Ticks: []int{0, 61, 200}}
+			env.Today, env.Minute = today, r.Range(10, 1300)
+		}
 		out := applyModel(model, cmd, env)
 		before := readFile(file)
 		var res MResult
@@ -143,6 +171,9 @@ func c04History(e *core.Env, r *core.Rand, idx int64) {
 			st.Model = "reject: " + out.Why
 		}
 		steps = append(steps, st)
+		if s == 0 && pauseFirst && !viaBin {
+			e.Count("histories_starting_with_pause_extend_"+st.Model[:2]+"_"+st.Klog[:2], 1)
+		}
 		if res.Panic != nil {
 			e.Violation("command-panic: "+res.Panic.Site(), fmt.Sprintf("step %d `klog %s` panicked: %s", s, cmd.String(), res.Panic.Value), w())
 			return
